@@ -597,6 +597,52 @@ func c16Run(t c16Task) (res c16Result) {
 		}
 		sort.Strings(res.Distinct)
 		res.Distinct = uniq(res.Distinct)
+	case "expiry":
+		// a token that is presented while it is valid and again after it has expired (real time: its life is 2 s);
+		// "valid, unexpired" is a statement about the moment of each request, not about the first one
+		node := "node:n1"
+		for _, who := range []struct {
+			sub   string
+			roles []string
+		}{{"admin", []string{"admin"}}, {c16Client, []string{"client"}}} {
+			w.setACL([]aclEntry{{"/*", "write", false}})
+			probes := []c16Req{{Method: http.MethodGet, Path: "/datasets"}, {Method: http.MethodGet, Path: "/jobs"}, {Method: http.MethodPost, Path: "/datasets/ab"}}
+			// the valid phase has to fit into the token's life; on a stalled machine it is repeated with a longer one
+			// (not being able to establish it says nothing about the hub and is not reported as a violation)
+			tok := ""
+			var life time.Duration
+			for _, l := range []time.Duration{2 * time.Second, 8 * time.Second, 30 * time.Second} {
+				issued := time.Now()
+				t := "Bearer " + w.sign(jwt.SigningMethodRS256, w.nodeKey, who.sub, who.roles, node, node, issued.Add(l))
+				served := 0
+				for _, rq := range probes {
+					rec := w.do(rq.Method, rq.Path, t, "")
+					res.Requests++
+					if !c16Rejected(rec.Code) {
+						served++
+					}
+				}
+				if served == len(probes) && time.Since(issued) < l-time.Second {
+					tok, life = t, l-time.Since(issued)
+					break
+				}
+			}
+			if tok == "" {
+				res.Distinct = append(res.Distinct, "expiry: valid phase not established for "+who.sub)
+				continue
+			}
+			time.Sleep(life + 1500*time.Millisecond)
+			for _, rq := range probes {
+				rec := w.do(rq.Method, rq.Path, tok, "")
+				res.Requests++
+				if !c16Rejected(rec.Code) {
+					res.Served++
+					res.fail("C16:expired-token-served-after-use|"+who.sub+" "+rq.Method+" "+rq.Path, fmt.Sprintf("%s %s with a token of %s that was accepted while valid and has expired since answered %d (want 401/403)", rq.Method, rq.Path, who.sub, rec.Code), map[string]interface{}{"method": rq.Method, "path": rq.Path})
+				} else {
+					res.Rejected++
+				}
+			}
+		}
 	case "persist":
 		res.persist(t)
 	}
@@ -767,7 +813,7 @@ func init() {
 		})
 	})
 	engine.RegisterCheck("C16", func(r *engine.Run) {
-		r.Rule = "ENUM on the real router + middlewares + ServiceCore (Auth.Middleware=local): every registered (method, route) with path parameters instantiated from {a,ab,b} x 12 token defects (+ valid admin as control); for the valid client token (obtained through POST /security/token) every ACL list of at most two (thorough: three) entries (ordered) from the lattice 7 resources x {read,write} x {allow,deny} x every registered request, judged by a reference decision function written from the statement (write needed for every method other than GET/HEAD; a matching deny for the needed action always rejects; a deny for the other action leaves the case open); GET /datasets must list exactly the readable datasets once each; every sequence of at most 3 security mutations over a 9-op alphabet is re-initialised from disk and compared. distinct = distinct (method, route, expected decision) triples + distinct security states"
+		r.Rule = "ENUM on the real router + middlewares + ServiceCore (Auth.Middleware=local): every registered (method, route) with path parameters instantiated from {a,ab,b} x 12 token defects (+ valid admin as control); a token used while valid and again after its two seconds of life have passed; for the valid client token (obtained through POST /security/token) every ACL list of at most two (thorough: three) entries (ordered) from the lattice 7 resources x {read,write} x {allow,deny} x every registered request, judged by a reference decision function written from the statement (write needed for every method other than GET/HEAD; a matching deny for the needed action always rejects; a deny for the other action leaves the case open); GET /datasets must list exactly the readable datasets once each; every sequence of at most 3 security mutations over a 9-op alphabet is re-initialised from disk and compared. distinct = distinct (method, route, expected decision) triples + distinct security states"
 		r.Assumptions = []string{"rejected = HTTP 401 or 403 (no handler of a protected route returns these itself)", "OPA path not configured: the ACL path decides", "external JWKS issuers are outside (no network)", "the service banner at / is treated as a documented open route"}
 		if !r.Quick() {
 			os.Setenv("VERIF_C16_TRIPLES", "1") // inherited by the workers
@@ -786,6 +832,7 @@ func init() {
 			kinds = append(kinds, t)
 		}
 		add(c16Task{Kind: "tokens"})
+		add(c16Task{Kind: "expiry"})
 		chunk := 12
 		if !r.Quick() {
 			chunk = 100
